@@ -165,8 +165,10 @@ func (c *Ctx) Violation(key, what string, replay any) {
 		name = name[:120]
 	}
 	path := filepath.Join(dir, name+".json")
-	b, _ := json.MarshalIndent(map[string]any{"property": c.ID, "key": key, "what": what, "input": replay}, "", " ")
-	os.WriteFile(path, b, 0o644)
+	if c.Replay == "" {
+		b, _ := json.MarshalIndent(map[string]any{"property": c.ID, "key": key, "what": what, "input": replay}, "", " ")
+		os.WriteFile(path, b, 0o644)
+	}
 	c.violSample["V:"+key] = map[string]any{"violation": key, "what": what, "input": replay}
 	if len(c.violOrder) <= 20 {
 		fmt.Fprintf(Out, "VIOLATION property=%s replay=%s key=%s :: %s\n", c.ID, path, key, what)
@@ -269,6 +271,22 @@ func (c *Ctx) Finish(cov Coverage) {
 		"violations":  len(c.violOrder),
 		"go":          runtime.Version(),
 		"repo":        RepoDir,
+	}
+	if c.Replay != "" {
+		// generic replay (checks without a single-element replay mode): the whole enumeration was run
+		// again on the current tree; report whether the recorded class occurred
+		var w struct {
+			Key string `json:"key"`
+		}
+		if b, err := os.ReadFile(c.Replay); err == nil {
+			json.Unmarshal(b, &w)
+		}
+		n := c.viol[w.Key] + c.knownHit[w.Key]
+		fmt.Fprintf(Out, "REPLAY property=%s key=%s reproduced=%v occurrences=%d (full enumeration re-run on the current tree)\n", c.ID, w.Key, n > 0, n)
+		if n > 0 {
+			os.Exit(1)
+		}
+		os.Exit(0)
 	}
 	if c.Replay == "" {
 		b, _ := json.MarshalIndent(ev, "", " ")
